@@ -223,10 +223,9 @@ static void run_case( vcase::Case const& c, bool cached )
     else {
         // threads were abandoned inside their operations: the list is not quiescent; forget it
         std::printf( "monitor drain skipped\n" );
-        fl->clear( []( node* ) {} );
     }
+    // no clear(): on a corrupted (cyclic) list it would not terminate; the destructor's assert is compiled out
     g_case_started.store( 0 );
-    fl->clear( []( node* ) {} );
     std::fflush( stdout );
 }
 
